@@ -23,11 +23,12 @@ var (
 	verifHArgs      []interface{}
 	verifParamsFail bool // deserializeParams rejects the batch (schema mismatch)
 	verifParamsSeen int
+	verifParamsTags []int // payload tag of every batch handed to deserializeParams
 )
 
 func verifResetHandler() {
 	verifHFn, verifHRes, verifHErr, verifHCalls, verifHArgs = nil, nil, nil, 0, nil
-	verifParamsFail, verifParamsSeen = false, 0
+	verifParamsFail, verifParamsSeen, verifParamsTags = false, 0, nil
 }
 
 func verifReflectValueOf(i interface{}) reflect.Value {
@@ -59,6 +60,9 @@ func verifReflectInterface(v reflect.Value) interface{} {
 
 func verifDeserializeParams(batch arrow.RecordBatch, t reflect.Type) (reflect.Value, error) {
 	verifParamsSeen++
+	if vb, ok := batch.(*verifBatch); ok {
+		verifParamsTags = append(verifParamsTags, vb.tag)
+	}
 	if verifParamsFail {
 		return reflect.Value{}, errors.New("parameter schema mismatch")
 	}
